@@ -32,7 +32,10 @@ theorem plainCrypto_eih : EihOK plainCrypto :=
   ⟨by intro k s b; rfl, by intro k s b; rfl, by intro p; simp [plainCrypto]⟩
 
 /-- **stream_roundtrip** (layer 1, every copy path): whatever sequence of `Write` / `ReadFrom` calls
-produced the chunks (any lengths, including 0 and > 0xFFFF), however the transport cut the ciphertext
+produced the chunks (any lengths, including 0 and > 0xFFFF; `ReadFrom` from any scripted `io.Reader`:
+short reads of every size, `(0, nil)` reads, data returned together with `io.EOF` or with another
+error — `WCall.data` is everything the source handed over up to and including the first result with
+an error), however the transport cut the ciphertext
 into segments (`segs`, only their concatenation matters), and whatever mixture of `Read(n)` (any
 `n ≥ 0`), `WriteTo` and tunnel copy the receiving side runs: no call fails, the calls hand over
 consecutive pieces of exactly the written bytes — in order, each byte once — and a call reports the
@@ -335,6 +338,81 @@ theorem midchunk_timeout_is_permanent (C : Crypto) (hC : AeadOK C) (s : SReader)
   rw [← h3] at this
   exact this
 
+
+/-- **response_roundtrip_readfrom**: the server's first write is a `ReadFrom` from ANY scripted source —
+short reads of every size, `(0, nil)` reads, data returned together with `io.EOF` (the
+`iotest.DataErrReader` style) or with another error, also in the very first read, also when everything
+fits the first chunk and nothing was written before. Every byte the source hands over
+(`Src.takenServerFirst`) reaches the client, in order, once: the first bytes travel with the response
+header, the rest as chunks; the client's first `WriteTo` / tunnel copy delivers all of it, a first
+`Read` delivers its beginning and leaves a reader in sync with the rest. Depends on the regenerated
+facts `readFromHandlesDataFirst` and `serverFirstReadHandlesDataFirst` (the loops handle `nr > 0`
+before they look at `err`). -/
+theorem response_roundtrip_readfrom (C : Crypto) (hC : AeadOK C) (s : SWriter) (hs : s.w = none) (ch : RespChoice)
+    (hcaps : CapsOk s.respPrefix.length s.psk.length ch = true) (hsalt : ch.salt.length = s.psk.length)
+    (src : Src) (hsome : Src.takenServerFirst (firstCap s.respPrefix.length s.psk.length ch) src ≠ [])
+    (c : CReader) (now : Int) (hts : ClockOK ch.ts now)
+    (hr : c.r = none) (hpsk : c.psk = s.psk) (hpre : c.respPrefix = s.respPrefix) (hrs : c.reqSalt = s.reqSalt)
+    (hrsl : s.reqSalt.length = s.psk.length)
+    (hfr : firstRead c.allowSeg (c.respPrefix.length + c.psk.length + TCPRequestFixedLengthHeaderLength + c.psk.length + tagSize) c.segs =
+        .ok ((s.readFrom C ch src).1.flatten.take (c.respPrefix.length + c.psk.length + TCPRequestFixedLengthHeaderLength + c.psk.length + tagSize))
+            ((s.readFrom C ch src).1.flatten.drop (c.respPrefix.length + c.psk.length + TCPRequestFixedLengthHeaderLength + c.psk.length + tagSize))) :
+    let stream := Src.takenServerFirst (firstCap s.respPrefix.length s.psk.length ch) src
+    (∀ n, ∃ r' cs', (c.read C now n).2.r = some r' ∧ Sync C r' cs' ∧ (c.read C now n).1.err = none ∧
+        stream = (c.read C now n).1.bytes ++ pending r' cs' ∧ (0 < n → (c.read C now n).1.bytes ≠ [])) ∧
+    ((c.writeTo C now).1.bytes = stream ∧ (c.writeTo C now).1.err = none) ∧
+    (∀ started, (c.tunnel C now started).1.bytes = stream ∧ (c.tunnel C now started).1.err = none) := by
+  intro stream
+  have hcap := firstCap_bounds _ _ ch hcaps
+  rcases SWriter_first_readFrom C s hs ch src (by omega) with ⟨hnil, _⟩ | ⟨p0, cs, h0, hle, hv, hdata, hwire⟩
+  · exact absurd hnil hsome
+  · rw [hwire] at hfr
+    obtain ⟨hread, hwt, htn⟩ := client_first_call_respWire hC s ch p0 cs c now hts hsalt hr hpsk hpre hrs hrsl h0 (by omega) hv hfr
+    refine ⟨fun n => ?_, ?_, fun started => ?_⟩
+    · obtain ⟨r', h1, h2, h3, h4, h5⟩ := hread n
+      refine ⟨r', cs, h1, h2, h3, ?_, h5⟩
+      show stream = _
+      rw [pending, ← List.append_assoc, ← h4]; exact hdata.symm
+    · rw [hwt]; exact ⟨by simpa [ROut.bytes] using hdata, rfl⟩
+    · rw [htn started]; exact ⟨by simpa [ROut.bytes] using hdata, rfl⟩
+
+
+/-- **writeto_into_any_sink**: `WriteTo(w)` on an in-sync conn into ANY sink that keeps the `io.Writer`
+contract (it may take fewer bytes than offered, with an error, at any call — also for the flushed
+left-over): what the sink has taken is a prefix of the pending stream (in order, nothing twice); the
+only error reported is the sink's; if the sink never failed it has taken everything. -/
+theorem writeto_into_any_sink (C : Crypto) (hC : AeadOK C) (r : Reader) (cs : List Bytes) (hs : Sync C r cs)
+    (hleft : r.left.length ≤ streamMaxPayloadSize) (sink : List SinkRes) (hk : SinkOK sink) :
+    ∃ pieces e, (r.writeToSink C sink).1 = .copied pieces e ∧ (∃ rest, pending r cs = pieces.flatten ++ rest) ∧
+      (e = none → pieces.flatten = pending r cs) ∧ (e = none ∨ e = some .sinkErr) := by
+  have hf : writeToFlushesLeftover = true := by decide
+  have hfuel : cs.length < r.wire.length + 1 := by
+    rw [hs.wire]; have := encodeChunks_length_ge hC r.key r.nonce cs; omega
+  by_cases hl : r.left.length = 0
+  · have hl' : r.left = [] := List.length_eq_zero_iff.mp hl
+    obtain ⟨pieces, e, h1, h2, h3, h4⟩ := copyLoopSink_prefix hC cs _ r sink [] hs hk hfuel
+    refine ⟨pieces, e, ?_, ?_, ?_, h4⟩
+    · simpa [Reader.writeToSink, hf, hl] using h1
+    · simpa [pending, hl'] using h2
+    · simpa [pending, hl'] using h3
+  · obtain ⟨⟨rest0, hpre⟩, hfull, hk'⟩ := sinkWrite_ok hk r.left hleft
+    by_cases he : (sinkWrite sink r.left).2.1 = true
+    · refine ⟨[(sinkWrite sink r.left).1], some .sinkErr, ?_⟩
+      refine And.intro ?_ (And.intro ?_ (And.intro (fun h => nomatch h) (Or.inr rfl)))
+      · simp [Reader.writeToSink, hf, hl, he]
+      · refine ⟨rest0 ++ cs.flatten, ?_⟩
+        simp only [pending, List.flatten_cons, List.flatten_nil, List.append_nil]
+        rw [← List.append_assoc, ← hpre]
+    · have he' : (sinkWrite sink r.left).2.1 = false := by simpa using he
+      have ha := hfull he'
+      have hs' : Sync C { r with left := r.left.drop (sinkWrite sink r.left).1.length } cs := ⟨hs.wire, hs.valid⟩
+      obtain ⟨pieces, e, h1, ⟨rest, h2⟩, h3, h4⟩ := copyLoopSink_prefix hC cs _ _ (sinkWrite sink r.left).2.2 [(sinkWrite sink r.left).1] hs' hk' hfuel
+      refine ⟨(sinkWrite sink r.left).1 :: pieces, e, ?_⟩
+      refine And.intro ?_ (And.intro ?_ (And.intro (fun h => ?_) h4))
+      · simpa [Reader.writeToSink, hf, hl, he'] using h1
+      · exact ⟨rest, by simp only [pending, List.flatten_cons, ha, h2, List.append_assoc]⟩
+      · simp only [pending, List.flatten_cons, ha, h3 h]
+
 /-- the splitting loops of `Write` / `ReadFrom` lose nothing and respect the chunk limit -/
 theorem writer_chunks_valid (calls : List WCall) :
     ValidChunks (calls.flatMap WCall.chunks) ∧
@@ -361,3 +439,5 @@ end SSV.C01
 #print axioms SSV.C01.stream_roundtrip_conn
 #print axioms SSV.C01.transient_timeout_at_chunk_boundary
 #print axioms SSV.C01.midchunk_timeout_is_permanent
+#print axioms SSV.C01.response_roundtrip_readfrom
+#print axioms SSV.C01.writeto_into_any_sink
